@@ -555,6 +555,47 @@ Section Scenario.
     end.
 End Scenario.
 
+(* --- cross-check of the hand transcription against the translator's graph --------------------- *)
+(* The set of lock-operation traces (on one mutex) a thread can produce from each node, computed by
+   Kleene iteration over the graph (sets stay small: there are few distinct lock traces). *)
+Definition op_eqb (a b : op) : bool :=
+  match a, b with
+  | OSkip, OSkip | ORLock, ORLock | ORUnlock, ORUnlock | OLock, OLock | OUnlock, OUnlock => true
+  | _, _ => false
+  end.
+Definition tr_eqb := list_eqb op_eqb.
+Fixpoint dedup_tr (l : list (list op)) : list (list op) :=
+  match l with
+  | [] => []
+  | x :: l' => if memb tr_eqb x l' then dedup_tr l' else x :: dedup_tr l'
+  end.
+(* traces are cut after [trace_cap] operations (loops that lock would otherwise give unboundedly many);
+   a cut trace is longer than every trace of the hand programs, so it never matches one *)
+Definition trace_cap : nat := 6.
+Definition tr_step (g : prog) (T : list (list (list op))) : list (list (list op)) :=
+  map (fun nd => let pre := match p_op nd with OSkip => [] | o => [o] end in
+                 match p_succ nd with
+                 | [] => [pre]
+                 | succs => dedup_tr (map (fun t => firstn trace_cap (pre ++ t)) (flat_map (fun s => nth s T []) succs))
+                 end) g.
+Fixpoint tr_iter (fuel : nat) (g : prog) (T : list (list (list op))) : list (list (list op)) :=
+  match fuel with O => T | S f => tr_iter f g (tr_step g T) end.
+Definition lock_traces (g : prog) : list (list (list op)) := tr_iter (length g) g (map (fun _ => []) g).
+Definition subset_tr (a b : list (list op)) : bool := forallb (fun x => memb tr_eqb x b) a.
+Definition same_tr (a b : list (list op)) : bool := subset_tr a b && subset_tr b a.
+
+(* some mutex of the service is used exactly as the hand transcription says executionConfigMu is:
+   an entry whose traces are those of the refresh ({return early, RLock RUnlock Lock Unlock}), and
+   every trace of every hand program is a trace of some entry of the service *)
+Definition hand_matches_source (g : graph) (entries : list nat) : bool :=
+  let TH := lock_traces hand_prog in
+  existsb (fun mu =>
+             let T := lock_traces (project mu g) in
+             existsb (fun e => same_tr (nth e T []) [[]; [ORLock; ORUnlock; OLock; OUnlock]]) entries &&
+             forallb (fun he => negb (match nth he TH [] with [] => true | _ => false end) &&
+                                existsb (fun e => subset_tr (nth he TH []) (nth e T [])) entries) hand_entries)
+          (mutexes_of g).
+
 (* prediction for a scenario: per thread (returned?, answer), and whether the lock is free at the end *)
 Definition predict (pre_fix url_set : bool) (init : cfgstate) (cmds : list cmd) : list (bool * result) * bool * cfgstate :=
   let '(ms, g, es) := layout 0 (map (program pre_fix) (spawns_of cmds)) in
